@@ -63,24 +63,57 @@ def run(rng, tier, res=None, want=("knnpred", "select")):
         n = rng.choice([3, 4, 5, 6, 8, 10, 12 if tier == "quick" else 16])
         d = rng.choice([1, 2, 3])
         kind = rng.choice(["lattice", "lattice", "dups", "blobs", "normal"])
-        metric = rng.choice(["squared_euclidean", "euclidean", "manhattan", "log_squared_euclidean"])
+        metric = rng.choice(["squared_euclidean", "euclidean", "manhattan", "log_squared_euclidean", "pearson", "neyman"])
+        asym = metric in ("pearson", "neyman")     # d(x, t) != d(t, x): the orientation of every evaluation matters
         fn = dist.DISTANCES[metric]
         X = gen_data(rng, n, d, kind)
+        if asym:
+            X = np.abs(X) + 0.5
         K = rng.choice([2, 2, 3])
         Y = np.array([rng.randrange(K) for _ in range(n)], dtype=int)
         nv = rng.choice([2, 3, 5])
         Xv = gen_data(rng, nv, d, kind)
+        if asym:
+            Xv = np.abs(Xv) + 0.5
         if rng.random() < 0.4:
             Xv[0] = X[rng.randrange(n)]            # a query equal to a training sample
         Yv = np.array([rng.randrange(K) for _ in range(nv)], dtype=int)
         if rng.random() < 0.15:
             Yv = np.array([(int(Y[0]) + 1) % K] * nv)   # validation labels mostly wrong
         Yv[rng.randrange(nv)] = K - 1                 # predictions (training labels) stay within opf_accuracy's class range
+        if rng.random() < 0.25:
+            Y = Y + 1; Yv = Yv + 1                    # class identifiers 1..K (as in native OPF files): no class 0 anywhere
         max_k = rng.randint(1, max(1, min(5, n - 1)))
         min_k = rng.randint(1, max_k)
+        nq = rng.choice([1, 2, 4, 6])
+        Q = gen_data(rng, nq, d, kind)
+        if asym:
+            Q = np.abs(Q) + 0.5
+        for t in range(nq):
+            if rng.random() < 0.4:
+                Q[t] = X[rng.randrange(n)]
+        if nq >= 2 and rng.random() < 0.3:
+            Q[1] = Q[0]
+        # pre-computed mode: the samples are rows of a larger pool, in a shuffled order, addressed through index arrays
+        # (KNN-supervised training refuses a matrix larger than its training set, so it is driven through features only)
+        pre = unsup and rng.random() < 0.5
+        It = Iv = Iq = None
+        Mpre = None
+        if pre:
+            extra = rng.choice([0, 2, 5])
+            tot = n + nv + nq + extra
+            perm_u = list(range(tot)); rng.shuffle(perm_u)
+            It, Iv, Iq = perm_u[:n], perm_u[n:n + nv], perm_u[n + nv:n + nv + nq]
+            Pu = [None] * tot
+            for r, pos in zip(list(X) + list(Xv) + list(Q), perm_u):
+                Pu[pos] = np.array(r, dtype=float)
+            for pos in perm_u[n + nv + nq:]:
+                Pu[pos] = np.abs(gen_data(rng, 1, d, kind)[0]) + 0.5
+            Mpre = np.array([[float(fn(Pu[a].copy(), Pu[b].copy())) for b in range(tot)] for a in range(tot)])
+            res.hit("precomputed_with_index_arrays")
         meta = {"stream": "knnmodel", "unsup": unsup, "metric": metric, "X": X.tolist(), "Y": Y.tolist(),
-                "Xv": Xv.tolist(), "Yv": Yv.tolist(), "max_k": max_k, "min_k": min_k}
-        Xb, Yb, Xvb = X.tobytes(), Y.tobytes(), Xv.tobytes()
+                "Xv": Xv.tolist(), "Yv": Yv.tolist(), "max_k": max_k, "min_k": min_k, "pre_computed": pre, "I_train": It, "I_val": Iv}
+        Xb, Yb, Xvb, Yvb = X.tobytes(), Y.tobytes(), Xv.tobytes(), Yv.tobytes()
         crit = []
         junk = [np.full(max_k, 1e300), np.full(max_k + 1, 1e300)]
         del junk                          # recycled memory must not influence a fit
@@ -93,6 +126,8 @@ def run(rng, tier, res=None, want=("knnpred", "select")):
                     v = real_np.exp(a); _t.append((float(a), float(v))); return v
                 KN.np = Proxy(real_np, exp=exp_wrap)
                 o = US.UnsupervisedOPF(min_k=min_k, max_k=max_k, distance=metric)
+                if pre:
+                    o.pre_computed_distance = True; o.pre_distances = Mpre
                 orig_cut = o._normalized_cut
                 state_before_final = {}
 
@@ -108,11 +143,13 @@ def run(rng, tier, res=None, want=("knnpred", "select")):
                     crit.append((k, v)); return v
                 o._normalized_cut = cut_wrap
                 try:
-                    o.fit(X, Y)
+                    o.fit(X, Y, I_train=(np.array(It) if pre else None))
                 finally:
                     KN.np = real_np
             else:
                 o = KS.KNNSupervisedOPF(max_k=max_k, distance=metric)
+                if pre:
+                    o.pre_computed_distance = True; o.pre_distances = Mpre
                 accs = []
 
                 inject = rng.random() < 0.5
@@ -134,7 +171,10 @@ def run(rng, tier, res=None, want=("knnpred", "select")):
                 KN.np = Proxy(real_np, exp=exp_wrap2)
                 KS.np = Proxy(real_np, exp=exp_wrap2)
                 try:
-                    o.fit(X, Y, Xv, Yv)
+                    if pre:
+                        o.fit(X, Y, Xv, Yv, np.array(It), np.array(Iv))
+                    else:
+                        o.fit(X, Y, Xv, Yv)
                 finally:
                     KS.g = G
                     KN.np = real_np
@@ -143,8 +183,10 @@ def run(rng, tier, res=None, want=("knnpred", "select")):
             viol("C16", f"fit raised {type(ex).__name__}: {ex}", meta)
             continue
         res.hit("criterion_injected" if inject else "criterion_real")
-        if X.tobytes() != Xb or Y.tobytes() != Yb or Xv.tobytes() != Xvb:
-            viol("C07", "fit modified caller arrays", meta)
+        if X.tobytes() != Xb or Y.tobytes() != Yb or Xv.tobytes() != Xvb or Yv.tobytes() != Yvb:
+            which = [nm for nm, a_, b_ in (("X_train", X.tobytes(), Xb), ("Y_train", Y.tobytes(), Yb), ("X_val", Xv.tobytes(), Xvb),
+                                           ("Y_val", Yv.tobytes(), Yvb)) if a_ != b_]
+            viol("C07", f"{'UnsupervisedOPF' if unsup else 'KNNSupervisedOPF'}.fit modified the caller's {which}", meta)
         sg = o.subgraph
         best_k = sg.best_k
         nd = sg.nodes
@@ -261,13 +303,8 @@ def run(rng, tier, res=None, want=("knnpred", "select")):
                 res.hit("c04_knn_checked")
         # ---------------- predict (C09, C14) ----------------
         if "knnpred" in want:
-            nq = rng.choice([1, 2, 4, 6])
-            Q = gen_data(rng, nq, d, kind)
-            for t in range(nq):
-                if rng.random() < 0.4:
-                    Q[t] = X[rng.randrange(n)]
-            if nq >= 2 and rng.random() < 0.3:
-                Q[1] = Q[0]
+            def predict_(rows):
+                return o.predict(Q[rows], I_val=np.array([Iq[r] for r in rows])) if pre else o.predict(Q[rows])
             mod = US if unsup else KS
             calls = []
 
@@ -276,7 +313,7 @@ def run(rng, tier, res=None, want=("knnpred", "select")):
             mod.np = Proxy(real_np, minimum=min_wrap)
             fb0 = b"".join(a.features.tobytes() for a in nd)
             try:
-                out = o.predict(Q)
+                out = predict_(list(range(nq)))
             finally:
                 mod.np = real_np
             if b"".join(a.features.tobytes() for a in nd) != fb0:
@@ -324,13 +361,13 @@ def run(rng, tier, res=None, want=("knnpred", "select")):
             # ---- C09: position / batch / history independence ----
             msgs = []
             perm = list(range(nq)); rng.shuffle(perm)
-            out2 = o.predict(Q[perm])
+            out2 = predict_(perm)
             p2, c2 = (out2 if unsup else (out2, [0] * nq))
             for a, t in enumerate(perm):
                 if (p2[a], c2[a]) != (preds[t], clus[t]):
                     msgs.append(f"sample {t} predicted ({preds[t]},{clus[t]}) at position {t} but ({p2[a]},{c2[a]}) at position {a}")
             for t in range(nq):
-                o1 = o.predict(Q[t:t + 1])
+                o1 = predict_([t])
                 p1, c1 = (o1 if unsup else (o1, [0]))
                 if (p1[0], c1[0]) != (preds[t], clus[t]):
                     msgs.append(f"sample {t} predicted ({preds[t]},{clus[t]}) in the batch but ({p1[0]},{c1[0]}) alone")
